@@ -70,6 +70,7 @@ MUTATIONS = [
     ("C17", "src/bin/s4.rs", "                    syslogproc.drop_data_try(&syslinep_last);", "                    let _ = &syslinep_last;", "the worker never releases printed messages"),
     ("C19", "src/bin/s4.rs", "                            summaryprinted.bytes += sepb.len() as Count;\n                            summaryprinted.flushed += 1;\n                        }\n                    }\n                    // If a file's last char",
      "                            summaryprinted.flushed += 1;\n                        }\n                    }\n                    // If a file's last char", "separator bytes of text messages are not counted in the summary"),
+    ("C19", "src/bin/s4.rs", 'match printer.print_fixedstruct(entry, &mut buffer_utmp) {\n                        Ok((printed_, flushed_)) => {\n                            printed = printed_ as Count;\n                            flushed = flushed_ as Count;\n                        }\n                        Err(_err) => {\n                            // Only print a printing error once and only for debug builds.\n                            if !has_print_err {\n                                has_print_err = true;\n                                // BUG: Issue #3 colorization settings in the context of a pipe\n                                de_err!("failed to print {}", _err);\n                            }\n                            defo!("print error, will disconnect channel {:?}", pathid);\n                            disconnect.push(*pathid);\n                        }\n                    }\n                    if sepb_print {\n                        write_stdout(sepb);\n                        if cli_opt_summary {\n                            summaryprinted.bytes += sepb.len() as Count;\n', 'match printer.print_fixedstruct(entry, &mut buffer_utmp) {\n                        Ok((printed_, flushed_)) => {\n                            printed = printed_ as Count;\n                            flushed = flushed_ as Count;\n                        }\n                        Err(_err) => {\n                            // Only print a printing error once and only for debug builds.\n                            if !has_print_err {\n                                has_print_err = true;\n                                // BUG: Issue #3 colorization settings in the context of a pipe\n                                de_err!("failed to print {}", _err);\n                            }\n                            defo!("print error, will disconnect channel {:?}", pathid);\n                            disconnect.push(*pathid);\n                        }\n                    }\n                    if sepb_print {\n                        write_stdout(sepb);\n                        if cli_opt_summary {\n                            \n', "separator bytes after accounting records are not counted in the summary (other-kinds conservation case)"),
     ("C15", "src/readers/filepreprocessor.rs", "        .sort(true)\n", "        .sort(false)\n", "directory entries are no longer sorted"),
     ("C11", "src/readers/syslogprocessor.rs", None, None, "skipped: see seeded/C11"),
     ("C08", "src/readers/fixedstructreader.rs", "            map_tv_pair_fo.insert((tv_pair, fo), fo);", "            map_tv_pair_fo.insert((tv_pair, 0), fo);", "records with equal times overwrite each other again"),
@@ -89,8 +90,9 @@ def sensitivity(argv):
     property's quick check against that build through S4SIM_REPO / a private target directory."""
     root = os.path.join(core.scratch_root(), "sens-%d" % os.getpid())
     res = []
+    only = argv[0] if argv else None        # optional: run only the edits whose description contains this text
     for k, (prop, rel, old, new, what) in enumerate(MUTATIONS):
-        if old is None:
+        if old is None or (only and only not in what):
             continue
         copy = os.path.join(root, "repo%d" % k)
         shutil.rmtree(copy, ignore_errors=True)
@@ -120,6 +122,8 @@ def sensitivity(argv):
     shutil.rmtree(root, ignore_errors=True)
     missed = [r for r in res if r[2] != "caught"]
     print("sensitivity: %d edits, %d caught, %d not" % (len(res), len(res) - len(missed), len(missed)))
+    if only:
+        return 0 if not missed else 1
     os.makedirs(os.path.join(build.VERIF, "selftest_results"), exist_ok=True)
     with open(os.path.join(build.VERIF, "selftest_results", "sensitivity.json"), "w") as fh:
         json.dump([{"property": p_, "edit": w_, "result": r_[:80]} for (p_, w_, r_) in res], fh, indent=1)
